@@ -110,6 +110,14 @@ class CallGraph:
                 if pk == "decl":
                     return ("var", tree.nodes[p].get("d"))
                 if pk == "init":
+                    # which field of the record does this initializer position fill?
+                    tname = (tree.type(p) or "")
+                    if tname.startswith("struct "):
+                        rec = unit.records.get(tname[7:].split("[")[0].strip())
+                        if rec:
+                            idx = tree.nodes[p]["c"].index(cur)
+                            if idx < len(rec["fields"]):
+                                return ("field", rec["fields"][idx]["name"])
                     return ("init", p)
                 if pk == "ret":
                     return ("ret",)
